@@ -107,5 +107,7 @@ def extra(ctx):
 
 
 def run(ctx):
+    import engine_model
+    engine_model.model_part(ctx, 'C01')
     prof = dict(max_steps=5, p_tag=0.1, p_error=0.25, p_crash=0.15, p_deployfail=0.15, p_enabled=0.3, p_multi=0.7)
     family.run_family_check(ctx, 'C01', n_quick=20, n_thorough=300, profile=prof, extra_items=extra(ctx))
